@@ -18,6 +18,8 @@ theorem bechDecodeRaw_errors (U : CaseOracle) (k : BechKind) (s : List Char) {e 
   unfold bechDecodeRawFlat at h
   split at h
   · cases h; exact Or.inl rfl
+  split at h
+  · cases h; exact Or.inl rfl
   · split at h
     · cases h; exact Or.inl rfl
     · simp only at h
@@ -34,6 +36,8 @@ theorem bechDecodeRaw_ok_inv (U : CaseOracle) (k : BechKind) {s hrp : List Char}
     (h : bechDecodeRaw U k s = .ok (hrp, data)) : data ≠ [] ∧ ∀ x ∈ data, x < 32 := by
   rw [bechDecodeRaw_eq_flat] at h
   unfold bechDecodeRawFlat at h
+  split at h
+  · cases h
   split at h
   · cases h
   · split at h
